@@ -13,7 +13,8 @@ RULE = ('cases: (lookup) transform sequences of topologies produced by generated
         'elements i and tails of 0-3 child/edge transforms taken from the successive references: T.index(T[i])==i, T.index_with_tail(T[i]+tail)==(i,r) with apply(r)==apply(tail) and same '
         'fromdims, contains both ways, elements excluded by take are not found; (chains) raw chains walked through reference child/edge transforms of line/triangle/tetrahedron/square/cube/prism: '
         'canonical, uppermost and promote preserve the affine map and are idempotent; (coords) f_index/f_coords evaluate to i and the sample\'s own points; jump(geom)==0 on interfaces; locate() '
-        'returns, in input order, points whose images are within tol of targets that are images of generated interior points, and raises LocateError outside the hull. '
+        'returns, in input order, points whose images are within tol of targets that are images of generated interior points, and raises LocateError outside the hull; (containers) generated expression trees '
+        'over References (take in any order/with repeats, compress, index arrays, slices with negative step, chain, repeat, product, children, edges) and the PointsSequence of their points agree item by item with plain Python lists. '
         'non-trivial: >=2 operations or tail length >=2 mixing child and edge; distinct = case hash')
 ASSUMPTIONS = ['apply() of individual transform items is the meaning of a chain (checked against geometry evaluation in the coords sub)', 'points used for comparing affine maps are generated dyadic points']
 
@@ -270,15 +271,185 @@ def check_coords(case, rec):
     rec.label('mesh:' + case['mesh']['kind'])
 
 
+
+# ---- compressed containers (References / PointsSequence) against plain Python lists ------------------------------------------
+
+_LEAF_KINDS = ['plain', 'plain', 'uniform', 'empty']
+_OPS = ['take', 'take', 'compress', 'chain', 'chain', 'repeat', 'product', 'children', 'edges', 'slice', 'getitem_mask']
+
+
+@st.composite
+def container_cases(draw, tier):
+    """an expression tree over sequences of 2-D (or, for product operands, 1-D) references; every index/mask/count is drawn as a list of
+    integers and reduced modulo the current length when the tree is interpreted, so that a case is valid whatever the lengths turn out to be"""
+    def leaf(nd):
+        kind = draw(st.sampled_from(_LEAF_KINDS))
+        n = draw(st.integers(1, 4))
+        return dict(t='leaf', kind=kind, nd=nd, items=[draw(st.integers(0, 2)) for _ in range(n)])
+
+    def tree(depth, nd):
+        if depth <= 0 or draw(st.integers(0, 4)) == 0:
+            return leaf(nd)
+        op = draw(st.sampled_from(_OPS))
+        if op in ('take', 'compress', 'getitem_mask'):
+            return dict(t=op, a=tree(depth - 1, nd), idx=[draw(st.integers(0, 11)) for _ in range(draw(st.integers(0, 5)))], full=draw(st.integers(0, 3)) == 0)
+        if op == 'slice':
+            return dict(t=op, a=tree(depth - 1, nd), start=draw(st.sampled_from([None, 0, 1, -1, -2])), stop=draw(st.sampled_from([None, None, 0, 2, -1])), step=draw(st.sampled_from([None, 1, -1, 2, -2])))
+        if op == 'chain':
+            return dict(t=op, a=tree(depth - 1, nd), b=tree(depth - 1, nd))
+        if op == 'repeat':
+            return dict(t=op, a=tree(depth - 1, nd), count=draw(st.integers(0, 3)))
+        if op == 'product':
+            if nd != 2: return leaf(nd)
+            return dict(t=op, a=tree(depth - 1, 1), b=tree(depth - 1, 1))
+        if op in ('children', 'edges'):
+            # children keep the dimension; edges lower it, so the operand lives one dimension up (only available from 2 -> 1 and 3 -> 2: keep it simple: 2-D edges of 3-D not generated)
+            if op == 'edges':
+                if nd != 1: return leaf(nd)
+                return dict(t=op, a=tree(depth - 1, 2))
+            return dict(t=op, a=tree(depth - 1, nd))
+        return leaf(nd)
+
+    return dict(tree=tree(3 if tier == 'quick' else 4, 2), scheme=draw(st.sampled_from(['gauss', 'bezier', 'vertex'])), degree=draw(st.integers(2, 3)),     # bezier needs at least two points per direction
+                final=[draw(st.integers(0, 11)) for _ in range(draw(st.integers(0, 6)))])
+
+
+def _pool(nd):
+    from nutils import element
+    line = element.LineReference()
+    if nd == 1:
+        return [line, line, line]       # one reference of dimension 1: uniformity is the interesting part
+    return [line ** 2, element.TriangleReference(), line ** 2]
+
+
+def _interp_container(node, stats):
+    """returns (sequence, list model)"""
+    from nutils import elementseq
+    t = node['t']
+    if t == 'leaf':
+        pool = _pool(node['nd'])
+        if node['kind'] == 'empty':
+            return elementseq.References.empty(node['nd']), []
+        if node['kind'] == 'uniform':
+            ref = pool[node['items'][0]]
+            return elementseq.References.uniform(ref, len(node['items'])), [ref] * len(node['items'])
+        items = [pool[i] for i in node['items']]
+        return elementseq.References.from_iter(items, node['nd']), items
+    a, ma = _interp_container(node['a'], stats)
+    n = len(ma)
+    if t == 'take':
+        idx = [i % n for i in node['idx']] if n else []
+        if node['full'] and n: idx = [(i + k) % n for k, i in enumerate((node['idx'] + [0] * n)[:n])]      # exactly len(self) indices, any order, repeats allowed
+        if idx != sorted(idx): stats.add('take-unsorted')
+        if len(set(idx)) < len(idx): stats.add('take-repeats')
+        return a.take(numpy.array(idx, dtype=int)), [ma[i] for i in idx]
+    if t in ('compress', 'getitem_mask'):
+        pat = node['idx'] + [1, 0, 1, 1, 0, 1, 0, 0, 1, 1, 0, 1, 0]
+        mask = [bool(pat[k % len(pat)] % 2) for k in range(n)]
+        if node['full']: mask = [True] * n
+        m = numpy.array(mask, dtype=bool)
+        return (a.compress(m) if t == 'compress' else a[m]), [x for x, k in zip(ma, mask) if k]
+    if t == 'slice':
+        s = slice(node['start'], node['stop'], node['step'])
+        if (node['step'] or 1) < 0: stats.add('reversed-slice')
+        return a[s], ma[s]
+    if t == 'repeat':
+        return a.repeat(node['count']), ma * node['count']
+    if t == 'children':
+        return a.children, [c for r in ma for c in r.child_refs]
+    if t == 'edges':
+        return a.edges, [e for r in ma for e in r.edge_refs]
+    b, mb = _interp_container(node['b'], stats)
+    if t == 'chain':
+        if isinstance(a, type(b)) or True: stats.add('chain')
+        return a.chain(b), ma + mb
+    if t == 'product':
+        return a.product(b), [x * y for x in ma for y in mb]
+    raise NotImplementedError(t)
+
+
+def _kinds_of(node, out):
+    out.add(node['t'] if node['t'] != 'leaf' else 'leaf:' + node['kind'])
+    for k in ('a', 'b'):
+        if k in node: _kinds_of(node[k], out)
+    return out
+
+
+def check_containers(case, rec):
+    from nutils import elementseq, pointsseq
+    stats = set()
+    descr = str(case['tree'])[:300]
+    try:
+        seq, model = _interp_container(case['tree'], stats)
+    except Exception as e:
+        raise Violation('container-raised', f'building {descr}: {type(e).__name__}: {str(e)[:200]}', where='containers:raised:' + type(e).__name__)
+
+    def compare(seq, model, what):
+        if len(seq) != len(model):
+            raise Violation('container-length', f'{what} of {descr}: len {len(seq)}, list semantics give {len(model)}', where='containers:length:' + type(seq).__name__)
+        got = list(seq)
+        for i, (g, m) in enumerate(zip(got, model)):
+            if g != m:
+                raise Violation('container-item', f'{what} of {descr}: item {i} is {g}, list semantics give {m} (container {type(seq).__name__})', where='containers:item:' + type(seq).__name__)
+        for i in range(len(model)):
+            if seq.get(i) != model[i] or seq[i] != model[i]:
+                raise Violation('container-item', f'{what} of {descr}: get({i}) is {seq.get(i)}, iteration gives {model[i]} (container {type(seq).__name__})', where='containers:get:' + type(seq).__name__)
+        if bool(seq) != bool(model):
+            raise Violation('container-length', f'{what} of {descr}: bool() is {bool(seq)} for {len(model)} items', where='containers:bool')
+        if hasattr(seq, 'isuniform') and model and seq.isuniform and any(m != model[0] for m in model):
+            raise Violation('container-item', f'{what} of {descr}: isuniform although the items differ', where='containers:isuniform')
+
+    compare(seq, model, 'sequence')
+    n = len(model)
+    # a final selection in arbitrary order on whatever container class the tree produced, through every spelling
+    idx = [i % n for i in case['final']] if n else []
+    if idx != sorted(idx): stats.add('take-unsorted')
+    compare(seq.take(numpy.array(idx, dtype=int)), [model[i] for i in idx], f'take({idx})')
+    compare(seq[numpy.array(idx, dtype=int)], [model[i] for i in idx], f'[{idx}]')
+    compare(seq[::-1], model[::-1], '[::-1]')
+    compare(seq + seq[::-1], model + model[::-1], 'self + self[::-1]')
+    # the points of the sequence: same algebra one level down
+    with warnings.catch_warnings():
+        warnings.simplefilter('ignore')
+        try:
+            pts = seq.getpoints(case['scheme'], case['degree'])
+            pmodel = [r.getpoints(case['scheme'], case['degree']) for r in model]
+        except Exception as e:
+            raise Violation('container-raised', f'getpoints({case["scheme"]}, {case["degree"]}) of {descr}: {type(e).__name__}: {str(e)[:200]}', where='containers:getpoints:' + type(e).__name__)
+    compare(pts, pmodel, 'getpoints')
+    if pts.npoints != sum(p.npoints for p in pmodel):
+        raise Violation('container-length', f'getpoints of {descr}: npoints {pts.npoints}, items add up to {sum(p.npoints for p in pmodel)}', where='containers:npoints:' + type(pts).__name__)
+    compare(pts.take(numpy.array(idx, dtype=int)), [pmodel[i] for i in idx], f'getpoints.take({idx})')
+    compare(pts[::-1], pmodel[::-1], 'getpoints[::-1]')
+    sel = pts.take(numpy.array(idx, dtype=int))
+    if sel.npoints != sum(pmodel[i].npoints for i in idx):
+        raise Violation('container-length', f'getpoints.take({idx}) of {descr}: npoints {sel.npoints}, items add up to {sum(pmodel[i].npoints for i in idx)}', where='containers:npoints:' + type(sel).__name__)
+    if n and case['scheme'] == 'bezier':
+        # tri/hull index into the concatenated points: every simplex must stay within one element's block of points
+        offsets = numpy.cumsum([0] + [p.npoints for p in pmodel])
+        for name in ('tri', 'hull'):
+            try:
+                arr = numpy.asarray(getattr(pts, name))
+            except Exception as e:
+                raise Violation('container-raised', f'getpoints.{name} of {descr}: {type(e).__name__}: {str(e)[:200]}', where='containers:' + name + ':' + type(e).__name__)
+            want = numpy.concatenate([numpy.asarray(getattr(p, name)) + o for p, o in zip(pmodel, offsets)]) if pmodel else arr
+            if arr.shape != want.shape or (arr != want).any():
+                raise Violation('container-item', f'getpoints.{name} of {descr} differs from the items\' own {name} shifted by the point offsets', where='containers:' + name + ':' + type(pts).__name__)
+    kinds = _kinds_of(case['tree'], set())
+    rec.nontrivial = len(kinds - {'leaf:plain', 'leaf:uniform', 'leaf:empty'}) >= 1 and n > 0
+    rec.label(*('container-op:' + k for k in kinds), *('container:' + s for s in stats), 'container-class:' + type(seq).__name__, 'container-len:%s' % ('0' if n == 0 else '1' if n == 1 else '2-5' if n <= 5 else '6+'))
+
+
 SUBS = [Sub('lookup', lookup_cases, check_lookup, {'quick': 150, 'thorough': 3000}, weight=3, timeout=120),
         Sub('chains', chain_cases, check_chain, {'quick': 2000, 'thorough': 40000}, weight=1),
-        Sub('coords', coord_cases, check_coords, {'quick': 250, 'thorough': 3000}, weight=2, timeout=120)]
+        Sub('coords', coord_cases, check_coords, {'quick': 250, 'thorough': 3000}, weight=2, timeout=120),
+        Sub('containers', container_cases, check_containers, {'quick': 1500, 'thorough': 30000}, weight=1)]
 
 TRIGGERS = {}
 
 MANIFEST = dict(
     category='exploration',
-    technique='property-based testing (Hypothesis): round-trip and metamorphic oracles on transform sequences of generated topologies, generated child/edge chains, element index/coordinate functions, interface continuity and locate()',
+    technique='property-based testing (Hypothesis): round-trip and metamorphic oracles on transform sequences of generated topologies, generated child/edge chains, element index/coordinate functions, interface continuity and locate(); model-based testing of the compressed element/points containers against Python lists',
     text='For topologies produced by generated operation sequences on eight mesh kinds every sampled element satisfies index/index_with_tail/contains round trips with generated child/edge tails (remainder must be the same affine map); '
          'canonical/uppermost/promote must preserve the affine map and orientation parity of generated chains and be idempotent; f_index/f_coords must reproduce the sample; jump(geom) must vanish on interfaces; locate() must '
          'return points mapping to the targets in order and raise LocateError outside. Held on everything explored.',
